@@ -52,12 +52,15 @@ def encComp? (c : Comp) : Option Bytes := do
   let cs ← c.colors.mapM fun c => pack3U16? c.1 c.2.1 c.2.2
   pure (n ++ f ++ cnt ++ ps.flatten ++ ls.flatten ++ cs.flatten)
 
-/-- `PoseHeader.write`: always writes `VERSION = 0.2`, whatever `header.version` says -/
-def encHeader? (h : Header) : Option Bytes := do
+/-- the header layout of `docs/specs` with the version field as given (shared by v0.0, v0.1, v0.2) -/
+def encHeaderAny? (h : Header) : Option Bytes := do
   let d ← pack3U16? h.width h.height h.depth
   let n ← packU16? h.comps.length
   let cs ← h.comps.mapM encComp?
-  pure (putF32 v02bits ++ d ++ n ++ cs.flatten)
+  pure (putF32 h.version ++ d ++ n ++ cs.flatten)
+
+/-- `PoseHeader.write`: always writes `VERSION = 0.2`, whatever `header.version` says -/
+def encHeader? (h : Header) : Option Bytes := encHeaderAny? { h with version := v02bits }
 
 /-! ## reader -/
 
